@@ -175,7 +175,12 @@ def redrive(src):
     yield from _events(src)
 
 
-MODELS = {"quick": [], "thorough": []}
+MODELS = {"quick": [("RoundTrip", "RoundTrip_dfa.cfg", "print_dfa then the line parser + builder model, all DFA(2,{a,b}) x all "
+                     "label orders", {"allow_untaken": True}),
+                    ("RoundTrip", "RoundTrip_nfa.cfg", "print_nfa then parser, all NFAs on 2 states over {a} with epsilon",
+                     {"allow_untaken": True})],
+          "thorough": [("RoundTrip", "RoundTrip_dfa3.cfg", "all DFA(3,{a,b})", {"allow_untaken": True}),
+                       ("RoundTrip", "RoundTrip_nfa2ab.cfg", "all NFAs on 2 states over {a,b} with epsilon", {"allow_untaken": True})]}
 RULE = ("DFAs (DFA(3,{a,b}) under five naming schemes, random incl. empty alphabet and digits), NFAs (NFA(2,{a,b}), "
         "random; epsilon in {U+03B5,_,e}), PDAs (2-state universe, hand-written, random), TMs (all 169 one-state "
         "machines also with empty input alphabet, random with blank in {_,U+25A1,B}), regular expressions (all trees "
